@@ -373,6 +373,17 @@ def run(ctx):
         op = ops.Custom("c16", tys.FunctionType([], [tys.Bool] * n))
         handle = h.add_node(op, num_outs=n)
         ctx.guard("index", {"n": n}, check_index, ctx, n, handle, "add_node")
+        # the explicit count is what the handle knows, also where the operation's own signature says otherwise
+        for own in (0, n + 2):
+            if own != n:
+                h3 = Hugr()
+                other = h3.add_node(ops.Custom("c16b", tys.FunctionType([], [tys.Bool] * own)), num_outs=n)
+                ctx.guard("index", {"n": n, "op_outputs": own}, check_index, ctx, n, other, f"add_node(op with {own})")
+        # a handle WITHOUT a count on a recycled index whose freed handle had one
+        h4 = Hugr()
+        dead4 = h4.add_node(ops.Custom("dead", tys.FunctionType([], [tys.Bool] * n)), num_outs=n)
+        h4.delete_node(dead4)
+        ctx.guard("index", {"n": n, "recycled-without-count": True}, check_unknown, ctx, h4.add_node(ops.Custom("u")))
         # a handle on a recycled index (the freed handle had another / no output count)
         for stale in (None, 0, n + 2):
             h2 = Hugr()
@@ -407,7 +418,12 @@ def replay(ctx, rec):
     from hugr import Hugr, ops, tys
 
     case = rec.get("case") or {}
-    if rec.get("stratum") == "handle":
+    if rec.get("stratum") in ("program", "tracked"):
+        # a handle discrepancy found by the cross-cutting monitor inside C01's program workload
+        from vf.props import c01
+
+        c01.replay(ctx, rec)
+    elif rec.get("stratum") == "handle":
         run_scenario(ctx, case)
     elif "n" in case:
         n = case["n"]
